@@ -58,6 +58,10 @@ CLAIMED["C14"] = ("exploration", "3 (C14)",
    "Twin gateways over one world - caching planner (TTL 0, 1ns, 1s, 1h) and plain planner - run the same drawn request history: a pool built to collide on the cache key (same selection under the other operation type, renamed operation, other variable values, unrelated operations), as singles, batches (concurrent planning) and overlapping clients, with gaps around the TTL on the simulated clock. Oracle: request by request the cached gateway's answer equals the plain twin's. Thorough tier: race detector.",
    FED_NOTE + " Subscriptions sharing a cached plan are covered by C17's configuration, not here.", "deterministic simulation: cached-vs-plain twin over request histories with simulated clock jumps")
 
+CLAIMED["C19"] = ("exploration", "3 (C19)",
+   "Generated GraphQL multipart requests (single / batched, 1-4 files of 0 B..64 KiB, names with spaces, quotes, unicode; files at top level, in lists with holes, in nested input objects, in lists of input objects, one file at two paths, one variables object used by two root fields; truncated upload streams) travel through the real parse -> plan -> execute -> multipart re-encoding path to simulated services that re-parse the request they get. Oracle: data equals the reference (payloads echo name, size and checksum of every file received); per receiving service the forwarded map sends the client's paths to parts with the same file name and bytes and the JSON variables are null exactly there; services whose sub-request uses no file variable get plain JSON; a truncated upload is a 422 and reaches no service. Thorough tier: race detector.",
+   FED_NOTE, "deterministic simulation: round-trip oracle on the re-parsed multipart wire message + differential answer check")
+
 PENDING = {}  # id -> reason while a check is not built yet
 
 def main():
